@@ -14,6 +14,18 @@ SetCandidateState, MergeChangeLogs, Finalise, SetBlock, Save -> CandidatesRankin
 GetCandidatesTop of every live block and the candidate accounts read from the same block views are logged after every
 step; TraceRanking.tla demands list = FullSort(state) and accepts a different list only as a listed named deviation.
 
+Vote magnitudes and the persisted candidate file: the vote values of the model are abstract; a vote map (state variable
+vm, RankingOps.tla MagOf) sends them strictly monotonically to real totals whose persisted record (one slot of
+context.data with a {Pos, Len} header) is in another LENGTH class on either side of 2^7, 2^8, 2^16, 2^24, 2^32, 2^64
+(and 0 for an unregistered candidate).  With Persist = TRUE the design model carries the file (slots in allocation
+order, the length class each slot was allocated with, the current totals) and Restart ranks what the file decodes to;
+MCRanking_mag*.cfg are complete graphs for every catalogue map, in which "a record has another length than its slot was
+allocated with" is part of the state per slot position, so that a restart from every such state is replayed on the real
+store (coverage is counted from the slot layout the store reports and a hole is a harness failure).  The other graphs use
+a free map the binding draws per behaviour from a pool of totals around every boundary (up to 2^128); the random
+histories likewise.  Negative control Dev_StaleSlotLength (the slot header keeps its first length): TLC finds the
+restarted node publishing another list.
+
 Binding, engine level: real nodes (harness/node) with params.TermDuration shortened process real register / vote /
 unregister transactions; after every block the same observation is validated by the same monitor, and at snapshot
 heights block.DeputyNodes is validated against the parent's list (TraceRanking.tla TNode*)."""
@@ -27,8 +39,13 @@ MANIFEST = dict(
          "branches, all-candidates index, forks, stabilisation, restart) with the three named deviations off, and finds a counterexample with "
          "each of them on. Every transition of the graph, simulated walks of bigger configurations and seeded random histories are performed on "
          "the real store through the real account manager; the published list of every live block after every step is validated by TLC "
-         "against the full sort of the candidates read from the same block view. Real nodes with a shortened term process register/vote/"
-         "unregister transactions; DeputyNodes of snapshot blocks is validated against the parent's list.",
+         "against the full sort of the candidates read from the same block view. Vote values are abstract and mapped strictly monotonically "
+         "to real totals on both sides of every boundary at which the persisted candidate record changes its length (2^7, 2^8, 2^16, 2^24, "
+         "2^32, 2^64; 0 of an unregistered candidate): the model carries the persisted candidate file (slot order, the length class every "
+         "slot was allocated with) and the complete graphs for every such map - grown and shrunk records in the first / middle / last slot, "
+         "restart from every state - are replayed on the real store; a restarted node must publish the full sort. Real nodes with a "
+         "shortened term process register/vote/unregister transactions (amounts scaled so that totals cross 2^7, 2^8, 2^16); DeputyNodes "
+         "of snapshot blocks is validated against the parent's list.",
     note="List size is lowered through the verif hook store.VerifSetMaxCandidates (max_candidate_count is a package variable). Four genuine "
          "defects (three in updateTop / restart, one in the snapshot block's DeputyNodes) are carried as named deviations (known_findings.txt; their repair changes consensus results); ties are compared through a logged integer "
          "address rank.",
@@ -36,7 +53,43 @@ MANIFEST = dict(
               "histories + TLC trace validation (TraceRanking.tla, property monitor with named deviations)")
 
 NEG = [("MCRanking_neg1.cfg", "Dev_UnregisteredReRanked"), ("MCRanking_neg2.cfg", "Dev_RestartForgetsIndex"),
-       ("MCRanking_neg3.cfg", "Dev_MinTieIgnoresAddress")]
+       ("MCRanking_neg3.cfg", "Dev_MinTieIgnoresAddress"), ("MCRanking_neg4.cfg", "Dev_StaleSlotLength")]
+MAPS = {1: "2^7", 2: "2^8", 3: "2^16", 4: "2^24", 5: "2^32", 6: "2^64"}     # RankingOps.tla BoundLo / votemap.go bounds
+
+
+def cfgconst(ctx, cfg, name):
+    import re
+    return re.search(r"\b%s = (.*)" % name, open(os.path.join(ctx.specdir, cfg)).read()).group(1).strip()
+
+
+def magnitude_coverage(files):
+    """Coverage accounting (never a verdict): restarts of the real store at which some slot of the persisted candidate file
+    holds a record of another length than the one the slot was allocated with, by vote map, direction and slot position.
+    Read from the slot layout ([candidate, record length] per slot) the store reported BEFORE the restart."""
+    import json
+    cells, restarts, stale_restarts = {}, 0, 0
+    for f in files:
+        vm, first, cur = None, {}, []
+        for ln in open(f):
+            if '"slots"' not in ln:
+                continue
+            e = json.loads(ln)
+            if e["ev"] == "reset":
+                vm, first, cur = e.get("vm"), {}, []
+            if e["ev"] == "Restart":
+                restarts += 1
+                hit = False
+                for i, (c, n) in enumerate(cur):
+                    if n != first[c]:
+                        pos = "only" if len(cur) == 1 else "first" if i == 0 else "last" if i == len(cur) - 1 else "middle"
+                        key = (vm, "grown" if n > first[c] else "shrunk", pos)
+                        cells[key] = cells.get(key, 0) + 1
+                        hit = True
+                stale_restarts += hit
+            cur = e["slots"]
+            for c, n in cur:
+                first.setdefault(c, n)
+    return cells, restarts, stale_restarts
 
 
 def validate_parallel(ctx, files, what, groups=4, timeout=1800):
@@ -61,22 +114,37 @@ def run(ctx):
     # (cfg, list size, replayed?)  quick: linear chain.  thorough: + forks (3 live blocks) exhaustively model-checked for 3 candidates /
     # list size 2 / votes 0..2 (521k transitions, not replayed: 16 replay processes of that graph do not fit the machine next to other
     # checks) and replayed for two smaller universes, + every kind of account touch on the chain, + 4 candidates.
-    graphs = [("MCRanking_quick.cfg", 2, True)]
+    # MCRanking_mag*: the persisted candidate file with every catalogue vote map (2 candidates = first / last slot, restart with and
+    # without an unconfirmed block; thorough: account touches, two changes per block, the 2^24 map, and - for one map each, chosen by the
+    # seed - 3 candidates = first / middle / last slot and forks, where one SetStableBlock commits several blocks).
+    graphs = [("MCRanking_quick.cfg", 2, True), ("MCRanking_mag.cfg", 1, True)]
     if not quick:
         graphs += [("MCRanking_forks.cfg", 2, False), ("MCRanking_wide.cfg", 2, False), ("MCRanking_wide3.cfg", 3, False),
-                   ("MCRanking_forks1.cfg", 2, True), ("MCRanking_forks2.cfg", 1, True), ("MCRanking_touch.cfg", 2, True)]
-    dots = []
-    for cfg, k, rep in graphs:
+                   ("MCRanking_magf.cfg", 1, False),
+                   ("MCRanking_forks1.cfg", 2, True), ("MCRanking_forks2.cfg", 1, True), ("MCRanking_touch.cfg", 2, True),
+                   ("MCRanking_mag2.cfg", 1, True), ("MCRanking_mag3.cfg", 2, True), ("MCRanking_magf1.cfg", 1, True)]
+    for cfg, vmaps in (("MCRanking_mag3.cfg", [1 + ctx.seed % 6]), ("MCRanking_magf1.cfg", [1 + (ctx.seed + 3) % 6])):
+        p = os.path.join(ctx.specdir, cfg)
+        text = open(p).read().replace("@VMAPS@", ", ".join(map(str, vmaps)))
+        open(p, "w").write(text)
+        ctx.extra.setdefault("vote_maps_by_seed", {})[cfg] = [MAPS[m] for m in vmaps]
+
+    def design(g):
+        cfg, k, rep = g
         dot = ctx.path(cfg[:-4] + ".dot") if rep else None
-        ctx.tlc_exhaustive("MCRanking", cfg, timeout=1500, dump=dot)
-        if rep:
-            dots.append((cfg[:-4], k, dot))
+        ctx.tlc_exhaustive("MCRanking", cfg, timeout=1500, dump=dot, workers=4 if quick else None)
+        return (cfg[:-4], k, dot) if rep else None
+    if quick:
+        with concurrent.futures.ThreadPoolExecutor(2) as ex:     # two small graphs: side by side
+            dots = [d for d in ex.map(lambda ig: (time.sleep(0.3 * ig[0]), design(ig[1]))[1], enumerate(graphs)) if d]
+    else:
+        dots = [d for d in map(design, graphs) if d]
     # ---- ... and each named deviation alone violates it (negative controls)
     def neg(i):
         time.sleep(0.3 * i)           # distinct metadir names (millisecond clock)
         r = ctx.tlc("MCRanking", NEG[i][0], timeout=600, expect_ok=False, workers=4, args=["-noGenerateSpecTE"])
         return NEG[i][1], r["inv"]
-    with concurrent.futures.ThreadPoolExecutor(3) as ex:
+    with concurrent.futures.ThreadPoolExecutor(4) as ex:
         negs = dict(ex.map(neg, range(len(NEG))))
     ctx.extra["negative_controls_model_violates"] = negs
     for k, inv in negs.items():
@@ -84,13 +152,29 @@ def run(ctx):
             raise Broken("negative control %s: the model with the deviation on should violate TopIsFullSort (got %s)" % (k, inv))
     # ---- spec -> code: every transition of the dumped state graphs on the real store
     edges, ok = 0, True
+    magcov = {}
     for i, (name, k, dot) in enumerate(dots):
         files, summ = ctx.replay("ranking", graph=dot, shards=16, maxlen=60, timeout=1800, name=name,
-                                 env={"VERIF_RANKING_K": str(k), "VERIF_RANKING_TABLE": tables[(ctx.seed + i) % 2]})
+                                 env={"VERIF_RANKING_K": str(k), "VERIF_RANKING_MAXV": cfgconst(ctx, name + ".cfg", "MaxVotes"),
+                                      "VERIF_RANKING_TABLE": tables[(ctx.seed + i) % 2]})
         ok = validate_parallel(ctx, files, "state-graph replay " + name, groups=4 if quick else 8) and ok
         edges += summ["graph_edges"]
         if i == 0:
             ctx.cov["samples"] = summ["samples"]
+        magcov[name] = (files, magnitude_coverage(files))
+    # the magnitude graphs must have restarted the real store with a grown and a shrunk record in every slot position, for every
+    # vote map of the configuration (vacuity guard; meaningless once the real code has failed)
+    for name, (files, (cells, restarts, stale)) in magcov.items():
+        ctx.extra.setdefault("restarts_with_record_length_changed", {})[name] = dict(
+            restarts=restarts, with_changed_length=stale,
+            cells={"%s %s %s" % (MAPS.get(vm, "free map"), d, pos): n for (vm, d, pos), n in sorted(cells.items())})
+        if name.startswith("MCRanking_mag") and not ctx.violations:
+            vmaps = [int(x) for x in cfgconst(ctx, name + ".cfg", "VMaps").strip("{}").split(",")]
+            npos = ["first", "middle", "last"] if cfgconst(ctx, name + ".cfg", "NC") == "3" else ["first", "last"]
+            holes = [(MAPS[vm], d, pos) for vm in vmaps for d in ("grown", "shrunk") for pos in npos if not cells.get((vm, d, pos))]
+            if holes:
+                raise Broken("%s: no restart of the real store with a %s record in the %s slot for map %s (%d holes)" % (
+                    name, holes[0][1], holes[0][2], holes[0][0], len(holes)))
     ctx.extra["distinct_transitions_replayed"] = edges if ok else 0
     ctx.extra["transitions_in_graph"] = edges
     ctx.cov["exhaustive"] = True
@@ -100,8 +184,10 @@ def run(ctx):
             continue
         sim = ctx.tlc_simulate("MCRanking", cfg, num=num, depth=depth, prefix=cfg[:-4], timeout=900)
         f2, _ = ctx.replay("ranking", sim=sim, shards=16, name=cfg[:-4], timeout=1800,
-                           env={"VERIF_RANKING_K": str(k), "VERIF_RANKING_TABLE": tables[(ctx.seed + 1) % 2]})
+                           env={"VERIF_RANKING_K": str(k), "VERIF_RANKING_MAXV": cfgconst(ctx, cfg, "MaxVotes"),
+                                "VERIF_RANKING_TABLE": tables[(ctx.seed + 1) % 2]})
         validate_parallel(ctx, f2, "simulated walks " + cfg, groups=2 if quick else 8)
+        magcov[cfg[:-4]] = (f2, magnitude_coverage(f2))
     # ---- seeded random histories, bigger universes
     n = 25 if quick else 400
 
@@ -113,6 +199,14 @@ def run(ctx):
     with concurrent.futures.ThreadPoolExecutor(8) as ex:
         rfiles = list(ex.map(rnd, range(4 if quick else 8)))
     validate_parallel(ctx, rfiles, "random histories", groups=4 if quick else 8)
+    magcov["random histories"] = (rfiles, magnitude_coverage(rfiles))
+    for name in ("MCRanking_sim", "MCRanking_sim2", "random histories"):
+        if name in magcov:
+            cells, restarts, stale = magcov[name][1]
+            by = {}
+            for (vm, d, pos), n in cells.items():
+                by["%s %s" % (d, pos)] = by.get("%s %s" % (d, pos), 0) + n
+            ctx.extra["restarts_with_record_length_changed"][name] = dict(restarts=restarts, with_changed_length=stale, cells=by)
     # ---- engine level: real nodes, real transactions, term snapshot block, stabilisation, restart
     nn = 40 if quick else 300
 
@@ -131,5 +225,9 @@ def run(ctx):
         "thorough adds forks (3 live blocks), 4 candidates, list size 3, every kind of account touch; simulation and random histories up to 8 "
         "candidates, list size 4, 6 live blocks, restarts with unconfirmed blocks",
         "the database is closed quiescent before a restart (crash behaviour is C08)",
+        "vote totals: model values are mapped strictly monotonically to real totals; complete graphs with the persisted-file model: the top "
+        "value is 2^7, 2^8, 2^16, 2^32, 2^64 (thorough also 2^24) and the other registered values just below (2 candidates = first/last slot; "
+        "thorough: 3 candidates and forks for one map chosen by the seed); elsewhere maps drawn per behaviour from 56 totals within 2 of "
+        "2^7 ... 2^128; totals above 2^263 do not fit a slot of context.data (CandidateCache.Set panics) and are not generated",
         "engine level: TermDuration 4, InterimDuration 1, 3 genesis deputies + 4 further candidates, list size 4, heights 1..5 (the chain stops "
         "before the new term signs); no account both moves balance and votes inside one block (that tally defect is C11's)"]
